@@ -150,7 +150,7 @@ def observe(H, g):
             rows = [iN(rd[i]) for i in range(len(K))] if rd else nodes[: len(K)]
             return entry("degree", f"degree_matrix(order={d})", d=da, rows=rows, m=[np.asarray(K).astype(int).tolist()])
         guard(f"degree_matrix(order={d})", dm)
-    for d in (1, 2):
+    for d in (1, 2, 3):
         for norm in (True, False):
             def at():
                 B, rd = xgi.adjacency_tensor(H, d, normalized=norm, index=True)
@@ -158,12 +158,24 @@ def observe(H, g):
                 nz = np.argwhere(B != 0)
                 vals = {float(B[tuple(ix)]) for ix in nz}
                 lab = (lambda i: iN(rd[i])) if rd else (lambda i: nodes[i])
-                return entry("tensor", f"adjacency_tensor(order={d},normalized={norm})", d=d, w=norm,
+                return entry("tensor", f"adjacency_tensor(order={d},normalized={norm})", d=d, w=norm, m=[list(B.shape)],
                              tuples=[[lab(int(i)) for i in ix] for ix in nz],
                              val=frac(vals.pop()) if len(vals) == 1 else ([1, 1] if not vals else [1, 0]))
             if nodes:
                 guard(f"adjacency_tensor(order={d},normalized={norm})", at)
     return out
+
+
+def proj_w(H, g):
+    """projection with the weights in half units (Matrices.EdgeWeight2)"""
+    keep = {e: H.edges[e]["weight"] for e in H.edges if "weight" in H.edges[e]}
+    for e, w in keep.items():
+        H.edges[e]["weight"] = int(round(2 * w))
+    try:
+        return hg.proj(H, g)
+    finally:
+        for e, w in keep.items():
+            H.edges[e]["weight"] = w
 
 
 def _worker(args):
@@ -177,17 +189,17 @@ def _worker(args):
         H = obscore.realise(j, g, rng, shuffle=True, edge_id_map=emap)
         # non-negative edge weights (0 switches an edge off); some edges keep the default
         for e in list(H.edges):
-            w = rng.choice([None, 0, 1, 2, 3])
+            w = rng.choice([None, 0, 1, 2, 3, 0.5, 2.5])
             if w is not None:
                 H.edges[e]["weight"] = w
-        st, anom = hg.proj(H, g)
+        st, anom = proj_w(H, g)
         obs = observe(H, g)
         # one record per group of entries keeps single TLC evaluations small
         for c in range(0, len(obs), 40):
             out.append({"rid": f"s{base + k}.{c}", "what": f"matrices of shape {base + k} ({g.name}/{vname})", "st": st,
                         "obs": obs[c:c + 40]})
         if k % 5 == 0 and obscore.rewire_in_place(H, rng):  # same object, edited, evaluated again
-            st, anom = hg.proj(H, g)
+            st, anom = proj_w(H, g)
             obs = observe(H, g)
             for c in range(0, len(obs), 40):
                 out.append({"rid": f"s{base + k}r.{c}", "what": f"matrices of shape {base + k} rewired in place ({g.name}/{vname})",
